@@ -80,10 +80,49 @@ func (fr *Frame) callInner(in ssa.Instruction, c *ssa.CallCommon, st *State, pc 
 			calleeName = n
 		}
 	}
+	// interior addresses (&x.f, &a[i], &local) passed as arguments: an inlined
+	// callee works on the caller's location; after any other call the location
+	// is havoced (the callee may have written through the pointer)
+	argLocs := map[int]*Loc{}
 	for _, a := range c.Args {
+		if l, ok := fr.locs[a]; ok {
+			if _, isPtr := a.Type().Underlying().(*types.Pointer); isPtr {
+				if _, done := fr.vals[a]; !done {
+					fr.vals[a] = vc.fresh("addr", SInt)
+				}
+				argLocs[len(args)] = l
+			}
+		}
 		args = append(args, fr.val(a))
 		argTypes = append(argTypes, a.Type())
 	}
+	if len(argLocs) > 0 {
+		defer func() {
+			if fr.argLocsUsed {
+				fr.argLocsUsed = false
+				return
+			}
+			if fc := vc.specs.contractFor(calleeName); fc != nil {
+				if fc.Pure {
+					return
+				}
+			} else if eff := vc.effectsOfCall(fr, c, callee); !eff.top && len(eff.heaps) == 0 {
+				// the callee writes no modelled heap (e.g. sync primitives)
+				return
+			}
+			var idx []int
+			for i := range argLocs {
+				idx = append(idx, i)
+			}
+			sort.Ints(idx)
+			for _, i := range idx {
+				l := argLocs[i]
+				vc.warn("%s: address of a variable or field passed to %s: location havoced after the call", fr.fn.Name(), calleeName)
+				fr.storeToLoc(st, l, fr.freshTyped("esc", l.typ, st, pc))
+			}
+		}()
+	}
+	fr.pendingArgLocs = argLocs
 	fr.callOrd[calleeName]++
 	ord := fr.callOrd[calleeName]
 	site := fmt.Sprintf("%s#%d", shortCallee(calleeName), ord)
@@ -321,6 +360,16 @@ func (fr *Frame) inline(f *ssa.Function, ci *closureInfo, args []Term, st *State
 			child.vals[p] = args[i]
 		}
 	}
+	if len(fr.pendingArgLocs) > 0 && ci == nil {
+		off := len(args) - len(f.Params)
+		for i, l := range fr.pendingArgLocs {
+			if j := i - off; j >= 0 && j < len(f.Params) {
+				child.locs[f.Params[j]] = l
+			}
+		}
+		fr.argLocsUsed = true
+	}
+	fr.pendingArgLocs = nil
 	if ci != nil {
 		for i, fv := range f.FreeVars {
 			b := ci.bindings[i]
